@@ -509,6 +509,10 @@ def _bs_html(text, features=None, **kw):
     return _bs4.BeautifulSoup(text, "html.parser")
 
 
+# warm-up outside CrossHair's tracing: bs4 fills its entity tables lazily on first use, and doing that under tracing
+# recurses without end in CrossHair's dict proxies
+_bs_html("<p>&gt;&amp;&nbsp;&#65;</p>")
+
 SAMI_DOC = ('<SAMI><HEAD><TITLE>t</TITLE><STYLE TYPE="text/css"><!--\n.en-US { lang: en-US; }\n--></STYLE></HEAD>'
             '<BODY><SYNC start="1000"><P class="en-US">%s</P></SYNC><SYNC start="3000"><P class="en-US">&nbsp;</P></SYNC></BODY></SAMI>')
 
